@@ -99,15 +99,22 @@ PROPS = {
                                                      "RModel.Impl.decode_encode", "RModel.Impl.prefix_rejected", "RModel.Impl.decode_no_panic"],
             "modules": DEFAULT_MODULES + [FACTS, "RProofs.Properties.C05"], "owns": None},
     "C19": {"suites": [("bsi", 1.0)], "corpus": ["corpus/bsi/F02_marshal_sign.txt"],
-            "theorems": ["RModel.Facts.bsi64ValueFitsBitCount_spec", "RModel.Facts.encodeBSI64Value_range",
+            "theorems": ["RModel.BSI.wf_new", "RModel.BSI.wf_setValue", "RModel.BSI.get_set_same", "RModel.BSI.get_set_other",
+                         "RModel.BSI.exists_set", "RModel.BSI.get_foldl_setValue", "RModel.BSI.wf_foldl_setValue",
+                         "RModel.BSI.get_clearValues", "RModel.BSI.get_retainSet", "RModel.BSI.get_setFixed_same",
+                         "RModel.BSI.get_setFixed_other", "RModel.BSI.get_setFixed_wrap", "RModel.BSI.getValue_eq",
+                         "RModel.Facts.bsi64ValueFitsBitCount_spec", "RModel.Facts.encodeBSI64Value_range",
                          "RModel.Facts.encodeBSI64Value_spec", "RModel.Facts.decode_encode_BSI64"],
-            "modules": ["RProofs.Facts.Bits"], "owns": None},
+            "modules": ["RProofs.Facts.Bits", "RProofs.BSI"], "owns": None},
     "C20": {"suites": [("bsiq", 1.0), ("bsix", 0.5)],
-            "theorems": ["RModel.Facts.transform_monotone", "RModel.Facts.encodeBSI64Value_spec", "RModel.Facts.decode_encode_BSI64"],
-            "modules": ["RProofs.Facts.Bits"], "owns": None},
+            "theorems": ["RModel.BSI.compare_spec", "RModel.BSI.compareLE_spec", "RModel.BSI.compareInt64LessAndEqual_spec",
+                         "RModel.BSI.batchEqual1_spec", "RModel.BSI.compareInt64Value_isSome", "RModel.BSI.value_fits",
+                         "RModel.BSI.sum_spec", "RModel.BSI.sumAll_spec", "RModel.BSI.minMax_spec", "RModel.BSI.minMaxCandidates_spec",
+                         "RModel.Facts.transform_monotone", "RModel.Facts.encodeBSI64Value_spec", "RModel.Facts.decode_encode_BSI64"],
+            "modules": ["RProofs.Facts.Bits", "RProofs.BSI"], "owns": None},
 }
 
-HOOK_COMMITS = ["ad703f4"]
+HOOK_COMMITS = ["ad703f4", "ff7f62c"]
 NOT_YET = {}
 DEFAULT_LEVEL_TEXT = ("Theorems (Lean 4 kernel-checked, unbounded) give the meaning of every operation of the executable oracle in terms of "
                       "membership, and uniqueness of canonical forms; the real Go code is tied to that proved oracle by a correspondence "
